@@ -115,7 +115,52 @@ fn renamed_to_var(f: &fol::Formula, g: &fol::Formula, var: &fol::Variable) -> bo
     bf.len() == bg.len() && bf.iter().zip(bg.iter()).any(|(a, b)| a != b && b == var)
 }
 
+/// a quantifier block whose binders are B, B1 (, B2) with the substituted variable free in the
+/// body and the term mentioning B: renaming B must avoid its sibling binders as well
+fn gen_block_triple(r: &mut Rng) -> Option<(fol::Formula, fol::Variable, fol::GeneralTerm)> {
+    let base = ["X", "Y", "N"][r.upto(3)];
+    let sort = ["", "$i"][r.upto(2)];
+    let mut binders: Vec<String> = vec![format!("{base}{sort}"), format!("{base}1{sort}")];
+    if r.chance(1, 3) {
+        binders.push(format!("{base}2{sort}"));
+    }
+    if r.chance(1, 4) {
+        binders.push(format!("{base}1{}", if sort.is_empty() { "$i" } else { "" }));
+    }
+    r.shuffle(&mut binders);
+    let wsort = if r.chance(2, 3) { sort } else { ["", "$i"][r.upto(2)] };
+    let w = format!("W{wsort}");
+    let mut o = FolOpts::default();
+    o.vars = binders.iter().chain(std::iter::once(&w)).map(|v| match v.find('$') { Some(i) => (v[..i].to_string(), v[i..].to_string()), None => (v.clone(), String::new()) }).collect();
+    o.max_chain = 2;
+    let body = gen_formula(r, &o, 2);
+    let q = ["exists", "forall"][r.upto(2)];
+    // make sure every binder and the substituted variable occur
+    let args = binders.iter().map(|b| b.as_str()).chain(std::iter::once(w.as_str())).collect::<Vec<_>>().join(", ");
+    let text = match binders.len() {
+        2 => format!("{q} {} (w3({args}) and ({body}))", binders.join(" ")),
+        3 => format!("{q} {} (w4({args}) and ({body}))", binders.join(" ")),
+        _ => format!("{q} {} (w5({args}) or ({body}))", binders.join(" ")),
+    };
+    let text = if r.chance(1, 3) { format!("not ({text}) or p({w})") } else { text };
+    let f = parse_formula(&text).ok()?;
+    let var: fol::Variable = w.parse().ok()?;
+    let b0 = format!("{base}{sort}");
+    let tt = if wsort == "$i" {
+        if sort == "$i" { [format!("{b0}"), format!("{b0} + 1"), format!("{base}1$i * {b0}")][r.upto(3)].clone() } else { format!("{}", r.range(0, 3)) }
+    } else if sort == "$i" {
+        [format!("{b0}"), format!("{b0} + 1")][r.upto(2)].clone()
+    } else {
+        b0.clone()
+    };
+    let term: fol::GeneralTerm = tt.parse().ok()?;
+    Some((f, var, term))
+}
+
 fn gen_triple(r: &mut Rng, depth: u32) -> Option<(fol::Formula, fol::Variable, fol::GeneralTerm)> {
+    if r.chance(1, 3) {
+        return gen_block_triple(r);
+    }
     let mut o = FolOpts::default();
     o.depth = depth;
     // hostile binder pool: names that are candidates of Variable::sequence for each other
@@ -159,7 +204,7 @@ fn replay_known(k: &KnownFinding, st: &mut Stats) -> bool {
 pub fn run(cfg: &Config) -> i32 {
     let started = Instant::now();
     let budget = Duration::from_secs_f64(cfg.pick(40.0, 360.0) * cfg.scale);
-    let mut stats = parallel(cfg, "main", cfg.scaled(cfg.pick(120_000, 5_000_000)), budget, |idx, r, st| case(cfg, idx, r, st));
+    let mut stats = parallel(cfg, "main", cfg.scaled(cfg.pick(70_000, 5_000_000)), budget, |idx, r, st| case(cfg, idx, r, st));
     let mut known_replayed = Vec::new();
     for k in load_known(cfg).into_iter().filter(|k| k.property == "C17" && k.status == "open") {
         let still = replay_known(&k, &mut stats);
